@@ -117,6 +117,8 @@ impl BlobWriter {
         let mut deduped = false;
         if self.store.exists(&chunk_key) {
             // Increment reference count
+            #[cfg(feature = "neumann_verif")]
+            tensor_store::verif_hooks::yield_point("blob.store_chunk.exists_to_incr");
             deduped = increment_chunk_refs(&self.store, &chunk_key)?;
         }
         if !deduped {
@@ -139,6 +141,8 @@ impl BlobWriter {
                 )),
             );
 
+            #[cfg(feature = "neumann_verif")]
+            tensor_store::verif_hooks::yield_point("blob.store_chunk.absent_to_put");
             self.store.put(&chunk_key, tensor)?;
         }
         drop(guard);
@@ -173,6 +177,8 @@ impl BlobWriter {
             &checksum,
         );
 
+        #[cfg(feature = "neumann_verif")]
+        tensor_store::verif_hooks::yield_point("blob.finish.chunks_to_meta");
         let meta_key = format!("_blob:meta:{}", self.state.artifact_id);
         self.store.put(&meta_key, tensor)?;
 
